@@ -119,14 +119,23 @@ pub fn gen_c01(rng: &mut Rng, tier: Tier) -> Scenario {
         Tier::Thorough => 1000,
     };
     let mut sc = gen_scenario(rng, true, false, false, 4, max_steps);
+    if rng.chance(0.08) {
+        let at = rng.below(sc.chain.len() as u64 + 1) as usize;
+        sc.chain.insert(at, Op::JsonEdit(rng.pick(&["x+1", "y-1", "angle-2pi", "angle+2pi"]).to_string()));
+    }
     // many-sided regular polygons (the CLI accepts any --sides): rare because both the
     // implementation's edge-pair test and the oracle are quadratic in the number of sides
     let big = rng.below(1000);
     if big < 4 {
         let sides = if big < 1 { 1000 } else { *rng.pick(&[50usize, 200, 400]) };
         sc.shape = ShapeSpec::Polygon(sides);
-        sc.group = rng.pick(&["p1", "p2", "p1g1", "p2gg"]).to_string();
-        sc.chain = vec![Op::Stage(OptCfg {
+        sc.group = rng.pick(&["p1", "p1", "p2", "p1g1", "p2gg"]).to_string();
+        // bring the cell to the contact length first (circumradius 1: vertex-to-vertex contact at a
+        // cell length of 2): writes that make the copies overlap by 1e-5 .. 1e-3 must be refused
+        // by a correct overlap test and are then dropped
+        let delta = *rng.pick(&[-1e-3, 1e-5, 5e-5, 1e-4, 1e-3]);
+        let pre = Op::Special(vec![("cell.length".to_string(), 2.0 - delta), ("cell.ratio".to_string(), *rng.pick(&[1.0, 1.0 - 1e-4]))]);
+        sc.chain = vec![pre, Op::Stage(OptCfg {
             steps: if sides >= 1000 { 30 } else { 120 },
             inner: 20,
             kt_start: 0.0,
